@@ -838,6 +838,10 @@ func (m *Monitor) recomputeHash(r KexResult) []byte {
 // SkipVersion tells the monitor that direction dir carries no version line.
 func (m *Monitor) SkipVersion(dir int) { m.d[dir].versionDone = true }
 
+// Pending is the number of bytes of a direction the monitor holds without
+// having been able to decode them as a packet yet.
+func (m *Monitor) Pending(dir int) int { return len(m.d[dir].buf) }
+
 // SetSeq sets the sequence number the monitor expects next in a direction.
 func (m *Monitor) SetSeq(dir int, seq uint32) { m.d[dir].seq = seq }
 
